@@ -41,6 +41,9 @@ func init() { props["C11"] = c11{} }
 
 const c11MaxPatLen = 64
 
+// tier of the run (set by Gen; Exec of a replay keeps the quick behaviour)
+var c11Tier = "quick"
+
 var c11Iupac = map[byte]uint8{ // bit 0 a, 1 c, 2 g, 3 t
 	'A': 1, 'C': 2, 'G': 4, 'T': 8, 'U': 8, 'R': 5, 'Y': 10, 'M': 3, 'K': 12, 'S': 6, 'W': 9,
 	'B': 14, 'D': 13, 'H': 11, 'V': 7, 'N': 15,
@@ -60,21 +63,73 @@ func c11Base(c byte) uint8 {
 	return 0
 }
 
-// plain IUPAC primer -> list of base sets; ok=false when the primer uses the extended grammar ([..], !, #)
-func c11Primer(p string) (sets []uint8, ok bool) {
-	for i := 0; i < len(p); i++ {
-		c := p[i]
+// one primer position of the documented grammar  ['!'] (LETTER | '[' LETTER+ ']') ['#'] :
+// the class (a set of bases), negated or not, obligatory (no mismatch allowed there) or not
+type c11Tok struct {
+	base  uint8
+	neg   bool
+	oblig bool
+}
+
+// does the position accept the template symbol c?  A class accepts its bases; a negated class accepts every symbol that
+// is not one of its bases (ambiguity codes and non-nucleotides included: they are "not an A")
+func (t c11Tok) accepts(c byte) bool {
+	return (c11Base(c)&t.base != 0) != t.neg
+}
+
+// primer string -> positions; ok=false: not a primer of the documented grammar over the IUPAC letters
+// (independent naive parser: no table, no code of obiapat is used)
+func c11Primer(p string) (toks []c11Tok, ok bool) {
+	i := 0
+	up := func(c byte) byte {
 		if c >= 'a' && c <= 'z' {
 			c -= 32
 		}
-		s, found := c11Iupac[c]
-		if !found {
-			return nil, false
-		}
-		sets = append(sets, s)
+		return c
 	}
-	return sets, len(sets) > 0
+	for i < len(p) {
+		var t c11Tok
+		if p[i] == '!' {
+			t.neg = true
+			i++
+			if i >= len(p) {
+				return nil, false
+			}
+		}
+		if p[i] == '[' {
+			i++
+			n := 0
+			for i < len(p) && p[i] != ']' {
+				b, found := c11Iupac[up(p[i])]
+				if !found {
+					return nil, false
+				}
+				t.base |= b
+				n++
+				i++
+			}
+			if i >= len(p) || n == 0 {
+				return nil, false
+			}
+			i++
+		} else {
+			b, found := c11Iupac[up(p[i])]
+			if !found {
+				return nil, false
+			}
+			t.base = b
+			i++
+		}
+		if i < len(p) && p[i] == '#' {
+			t.oblig = true
+			i++
+		}
+		toks = append(toks, t)
+	}
+	return toks, len(toks) > 0
 }
+
+func c11Extended(p string) bool { return strings.ContainsAny(p, "[]!#") }
 
 func c11CompSet(s uint8) uint8 {
 	var r uint8
@@ -93,10 +148,12 @@ func c11CompSet(s uint8) uint8 {
 	return r
 }
 
-func c11RcSets(s []uint8) []uint8 {
-	out := make([]uint8, len(s))
+// the reverse-complemented primer: positions in reverse order, each class complemented (a negated class stays the
+// negation of the complemented class, an obligatory position stays obligatory)
+func c11RcSets(s []c11Tok) []c11Tok {
+	out := make([]c11Tok, len(s))
 	for i, x := range s {
-		out[len(s)-1-i] = c11CompSet(x)
+		out[len(s)-1-i] = c11Tok{base: c11CompSet(x.base), neg: x.neg, oblig: x.oblig}
 	}
 	return out
 }
@@ -128,12 +185,18 @@ func c11Lower(s []byte) []byte {
 	return out
 }
 
-// number of mismatches of the set list against the window of t starting at i (indices modulo len(t))
-func c11Ham(sets []uint8, t []byte, i int) int {
+const c11Inf = 1 << 20
+
+// number of mismatches of the positions against the window of t starting at i (indices modulo len(t));
+// c11Inf when an obligatory position does not match
+func c11Ham(sets []c11Tok, t []byte, i int) int {
 	k := 0
 	L := len(t)
 	for p, s := range sets {
-		if c11Base(t[(i+p)%L])&s == 0 {
+		if !s.accepts(t[(i+p)%L]) {
+			if s.oblig {
+				return c11Inf
+			}
 			k++
 		}
 	}
@@ -160,6 +223,10 @@ type c11Amp struct {
 	fe        int
 	rm        string
 	re        int
+	// oracle only
+	lo, hi int    // first / last+1 position of the template the record depends on (sites + window), linear templates
+	over   bool   // circular: the requested window (sites + flanks) is longer than the circle
+	alt    string // … and what Subsequence returns then: the request modulo the length
 }
 
 func (a c11Amp) key(withPos bool) string {
@@ -189,16 +256,34 @@ func (o c11Opt) options() []obiapat.WithOption {
 	return opts
 }
 
-// brute force over all position pairs: the amplicons the primers define on one (lower-case) template.
-// inScope=false: some requested window is longer than the circle (what "flanks as requested" means is not defined).
-func c11Expected(o c11Opt, F, R []uint8, t []byte) (exp []c11Amp, inScope bool) {
-	inScope = true
+type c11Site struct{ pos, err int }
+
+// every priming site of the positions D on the template: brute force over the offsets
+func c11Sites(D []c11Tok, emax int, t []byte, circ bool) []c11Site {
+	L := len(t)
+	last := L - len(D)
+	if circ {
+		last = L - 1
+	}
+	var out []c11Site
+	for i := 0; i <= last; i++ {
+		if k := c11Ham(D, t, i); k <= emax {
+			out = append(out, c11Site{i, k})
+		}
+	}
+	return out
+}
+
+// brute force over all pairs of sites: the amplicons the primers define on one (lower-case) template.
+// A circular window (sites + flanks) longer than the circle is what the options ask for, read turn after turn
+// (`over`); `alt` is what the code returns today (open finding).
+func c11Expected(o c11Opt, F, R []c11Tok, t []byte) (exp []c11Amp) {
 	L := len(t)
 	if L == 0 {
-		return nil, true
+		return nil
 	}
 	for _, dir := range []byte{'f', 'r'} {
-		var D, C []uint8 // D is searched as written, C is the complemented other primer, found downstream
+		var D, C []c11Tok // D is searched as written, C is the complemented other primer, found downstream
 		var ed, ec int
 		if dir == 'f' {
 			D, C, ed, ec = F, c11RcSets(R), o.ef, o.er
@@ -209,20 +294,12 @@ func c11Expected(o c11Opt, F, R []uint8, t []byte) (exp []c11Amp, inScope bool) 
 		if !o.circ && (dl > L || cl > L) {
 			continue
 		}
-		lastI, lastJ := L-dl, L-cl
-		if o.circ {
-			lastI, lastJ = L-1, L-1
-		}
-		for i := 0; i <= lastI; i++ {
-			ki := c11Ham(D, t, i)
-			if ki > ed {
-				continue
-			}
-			for j := 0; j <= lastJ; j++ {
-				kj := c11Ham(C, t, j)
-				if kj > ec {
-					continue
-				}
+		sd := c11Sites(D, ed, t, o.circ)
+		sc := c11Sites(C, ec, t, o.circ)
+		for _, si := range sd {
+			i, ki := si.pos, si.err
+			for _, sj := range sc {
+				j, kj := sj.pos, sj.err
 				gap := j - (i + dl)
 				if o.circ {
 					gap = ((gap % L) + L) % L
@@ -240,6 +317,7 @@ func c11Expected(o c11Opt, F, R []uint8, t []byte) (exp []c11Amp, inScope bool) 
 					continue
 				}
 				var from, n int
+				over := false
 				if o.ext > -1 {
 					from = i - o.ext
 					n = gap + dl + cl + 2*o.ext
@@ -259,8 +337,7 @@ func c11Expected(o c11Opt, F, R []uint8, t []byte) (exp []c11Amp, inScope bool) 
 						}
 						n = to - from
 					} else if n > L {
-						inScope = false
-						continue
+						over = true
 					}
 				} else {
 					from = i + dl
@@ -270,18 +347,23 @@ func c11Expected(o c11Opt, F, R []uint8, t []byte) (exp []c11Amp, inScope bool) 
 				dm := string(c11Win(t, i, dl))
 				cmb, _ := c11RcAny(c11Win(t, j, cl))
 				cm := string(cmb)
-				a := c11Amp{dir: dir, from: ((from % L) + L) % L}
+				a := c11Amp{dir: dir, from: ((from % L) + L) % L, over: over, lo: min(i, from), hi: max(j+cl, from+n)}
+				alt := seg
+				if over {
+					alt = c11Win(t, from, (n-1)%L+1)
+				}
 				if dir == 'f' {
-					a.amp, a.fm, a.fe, a.rm, a.re = string(seg), dm, ki, cm, kj
+					a.amp, a.alt, a.fm, a.fe, a.rm, a.re = string(seg), string(alt), dm, ki, cm, kj
 				} else {
 					rs, _ := c11RcAny(seg)
-					a.amp, a.fm, a.fe, a.rm, a.re = string(rs), cm, kj, dm, ki
+					ra, _ := c11RcAny(alt)
+					a.amp, a.alt, a.fm, a.fe, a.rm, a.re = string(rs), string(ra), cm, kj, dm, ki
 				}
 				exp = append(exp, a)
 			}
 		}
 	}
-	return exp, inScope
+	return exp
 }
 
 // reverse complement for the oracle on any lower-case template: symbols outside the IUPAC alphabet become 'n'
@@ -300,11 +382,50 @@ func c11RcAny(s []byte) ([]byte, bool) {
 	return out, all
 }
 
+// annotation problems seen by c11Run / the cli reader since the last reset (forward_primer, reverse_primer, direction,
+// annotations inherited from the template)
+var c11AnnotBad []string
+
+func c11CheckAnnot(s *obiseq.BioSequence, o c11Opt, tag int) {
+	bad := func(f string, a ...any) {
+		if len(c11AnnotBad) < 5 {
+			c11AnnotBad = append(c11AnnotBad, s.Id()+": "+fmt.Sprintf(f, a...))
+		}
+	}
+	if v, _ := s.GetAttribute("forward_primer"); v != o.fwd {
+		bad("forward_primer=%v, want %q", v, o.fwd)
+	}
+	if v, _ := s.GetAttribute("reverse_primer"); v != o.rev {
+		bad("reverse_primer=%v, want %q", v, o.rev)
+	}
+	if v, _ := s.GetAttribute("direction"); v != "forward" && v != "reverse" {
+		bad("direction=%v", v)
+	}
+	if v, ok := s.GetAttribute("c11tag"); !ok || v != tag {
+		bad("annotation of the template c11tag=%v, want %d", v, tag)
+	}
+	for _, k := range []string{"forward_error", "reverse_error"} {
+		if v, ok := s.GetAttribute(k); !ok {
+			bad("%s missing", k)
+		} else if _, isInt := v.(int); !isInt {
+			bad("%s=%v is not an int", k, v)
+		}
+	}
+	for _, k := range []string{"forward_match", "reverse_match"} {
+		if v, ok := s.GetAttribute(k); !ok {
+			bad("%s missing", k)
+		} else if _, isStr := v.(string); !isStr {
+			bad("%s=%v is not a string", k, v)
+		}
+	}
+}
+
 // runs the real PCRSlice on a batch; returns per-template amplicons
 func c11Run(o c11Opt, tpls [][]byte) [][]c11Amp {
 	batch := make(obiseq.BioSequenceSlice, len(tpls))
 	for i, t := range tpls {
 		batch[i] = obiseq.NewBioSequence("t"+strconv.Itoa(i), t, "")
+		batch[i].SetAttribute("c11tag", i)
 	}
 	res := obiapat.PCRSlice(batch, o.options()...)
 	out := make([][]c11Amp, len(tpls))
@@ -317,6 +438,7 @@ func c11Run(o c11Opt, tpls [][]byte) [][]c11Amp {
 		dots := strings.Index(coord, "..")
 		from1, _ := strconv.Atoi(coord[:dots])
 		a := c11Amp{from: from1 - 1, idto: coord[dots+2:], amp: string(s.Sequence())}
+		c11CheckAnnot(s, o, k)
 		d, _ := s.GetAttribute("direction")
 		if d == "forward" {
 			a.dir = 'f'
@@ -510,6 +632,7 @@ func (c11) Exec(c string) (string, []Fail) {
 		}
 
 		var per [][]c11Amp
+		c11AnnotBad = nil
 		res := guardT(20*time.Second, func() string {
 			defer dbg()
 			per = c11Run(o, tpls)
@@ -518,35 +641,68 @@ func (c11) Exec(c string) (string, []Fail) {
 		bad := res == "fatal" || res == "panic" || res == "hang"
 
 		// ---------------- oracle ----------------
+		if c11Extended(o.fwd) || c11Extended(o.rev) {
+			stat("extended-grammar")
+			if !plain {
+				stat("extended-grammar-not-parsed")
+			}
+		}
 		if plain {
 			lows := make([][]byte, len(tpls))
 			exps := make([][]c11Amp, len(tpls))
-			scope := make([]bool, len(tpls))
 			anyExp := false
 			for i, t := range tpls {
 				lows[i] = c11Lower(t)
-				exps[i], scope[i] = c11Expected(o, F, R, lows[i])
+				exps[i] = c11Expected(o, F, R, lows[i])
 				if len(exps[i]) > 0 {
 					anyExp = true
 				}
 				stat(fmt.Sprintf("sites:%d", min(len(exps[i]), 4)))
+				if len(exps[i]) > 10 {
+					stat("sites>10") // more amplicons than the initial capacity of the result slice of _Pcr
+				}
+				for _, e := range exps[i] {
+					if o.min != 0 && len(e.amp) == o.min && o.ext < 0 {
+						stat("len=min")
+					}
+					if o.max != 0 && len(e.amp) == o.max && o.ext < 0 {
+						stat("len=max")
+					}
+				}
 			}
 			if !anyExp {
 				caseTrivial = len(tpls) == 1 && len(tpls[0]) == 0
 			}
 			if bad {
-				inScope := true
-				for _, s := range scope {
-					inScope = inScope && s
-				}
-				if inScope {
-					fail("pcr."+res+"."+class, "PCRSlice ends in %s; the primers define %d amplicons on the first template", res, len(exps[0]))
-				}
+				fail("pcr."+res+"."+class, "PCRSlice ends in %s; the primers define %d amplicons on the first template", res, len(exps[0]))
 			} else {
 				for i := range tpls {
-					if !scope[i] {
-						stat("out-of-scope")
-						continue
+					// a circular window longer than the circle: the code returns the request modulo the length
+					// (open finding); recognised record by record, everything else is compared as usual
+					gotKeys := map[string]int{}
+					for _, g := range per[i] {
+						gotKeys[g.key(true)]++
+					}
+					nover := 0
+					var firstOver c11Amp
+					for k, e := range exps[i] {
+						if !e.over {
+							continue
+						}
+						stat("overlong-window")
+						asIs := e
+						asIs.amp = e.alt
+						if gotKeys[e.key(true)] == 0 && gotKeys[asIs.key(true)] > 0 {
+							if nover == 0 {
+								firstOver = e
+							}
+							nover++
+							exps[i][k].amp = e.alt
+						}
+					}
+					if nover > 0 {
+						fail("pcr.circ.overlong-window", "template %d (%d symbols): %d records whose window (sites + flanks) is longer than the circle carry the request modulo the length, e.g. %c at %d: %d symbols requested, %d returned",
+							i, len(lows[i]), nover, firstOver.dir, firstOver.from+1, len(firstOver.amp), len(firstOver.alt))
 					}
 					missing, spurious := c11Diff(c11Keys(exps[i], true, false), c11Keys(per[i], true, false))
 					if len(missing) > 0 {
@@ -602,41 +758,63 @@ func (c11) Exec(c string) (string, []Fail) {
 						}
 					}
 				}
-				// rotation of a circular template
+				// rotation of a circular template: a few origins (quick), every origin (thorough)
 				if o.circ && !short && c11MinLen(lows) > 0 {
 					stat("rotation-checked")
-					rots := make([][]byte, len(tpls))
-					for i, t := range lows {
-						L := len(t)
-						r := (7*i + 3*L/5 + 1) % L
-						if i%3 == 1 {
-							r = 1
+					nrot := 3
+					if c11Tier == "thorough" {
+						nrot = 0
+						for _, t := range lows {
+							nrot = max(nrot, len(t)-1)
 						}
-						if i%3 == 2 {
-							r = L - 1
-						}
-						rots[i] = append(append([]byte{}, t[r:]...), t[:r]...)
 					}
-					var perRot [][]c11Amp
-					r3 := guardT(20*time.Second, func() string {
-						defer dbg()
-						perRot = c11Run(o, rots)
-						return "ok"
-					})
-					if r3 != "ok" {
-						fail("rot."+r3+"."+class, "PCRSlice of the rotated templates: %s", r3)
-					} else {
-						for i := range tpls {
-							m, s := c11Diff(c11Uniq(c11Keys(per[i], false, false)), c11Uniq(c11Keys(perRot[i], false, false)))
-							if len(m)+len(s) > 0 {
-								fail("rot."+class, "template %d: lost by the rotation: %s ; gained: %s", i, c11Cut(m), c11Cut(s))
+					for q := 0; q < nrot; q++ {
+						rots := make([][]byte, len(tpls))
+						for i, t := range lows {
+							L := len(t)
+							var r int
+							if c11Tier == "thorough" {
+								r = 1 + q%max(L-1, 1)
+							} else {
+								switch (q + i) % 3 {
+								case 0:
+									r = (7*i + 3*L/5 + 1) % L
+								case 1:
+									r = 1
+								default:
+									r = L - 1
+								}
 							}
+							r %= L
+							rots[i] = append(append([]byte{}, t[r:]...), t[:r]...)
+						}
+						var perRot [][]c11Amp
+						r3 := guardT(20*time.Second, func() string {
+							defer dbg()
+							perRot = c11Run(o, rots)
+							return "ok"
+						})
+						if r3 != "ok" {
+							fail("rot."+r3+"."+class, "PCRSlice of the rotated templates: %s", r3)
+							break
+						}
+						failed := false
+						for i := range tpls {
+							m, s := c11Diff(c11Keys(per[i], false, false), c11Keys(perRot[i], false, false))
+							if len(m)+len(s) > 0 {
+								fail("rot."+class, "template %d, rotation %d: lost by the rotation: %s ; gained: %s", i, q, c11Cut(m), c11Cut(s))
+								failed = true
+							}
+						}
+						if failed {
+							break
 						}
 					}
 				}
 			}
-		} else {
-			stat("extended-grammar")
+		}
+		if len(c11AnnotBad) > 0 {
+			fail("pcr.annot."+class, "annotations of the amplicons: %s", strings.Join(c11AnnotBad, " ; "))
 		}
 		if short && !bad {
 			// the C encoder reads 64 symbols of a circular sequence whatever its length: not modelled
@@ -694,7 +872,7 @@ func (c11) Exec(c string) (string, []Fail) {
 		// oracle: the amplicons of the whole template are exactly the amplicons found on the fragments (as a set, in
 		// the coordinates of the whole template)
 		low := c11Lower(t)
-		exp, _ := c11Expected(o, F, R, low)
+		exp := c11Expected(o, F, R, low)
 		var got []c11Amp
 		for k, l := range per {
 			for _, a := range l {
@@ -716,26 +894,90 @@ func (c11) Exec(c string) (string, []Fail) {
 		}
 		return res, fails
 
-	case f[0] == "cli" && len(f) == 9:
-		o, ok := c11ParseOpt([]string{f[1], f[2], f[3], f[3], f[4], f[5], f[6], f[7], "0"})
-		t, ok2 := unhx(f[8])
-		if !ok || !ok2 || o.max < 1 {
+	case f[0] == "cli" && (len(f) == 9 || len(f) == 11):
+		// cli <fwd> <rev> <e> <min> <max> <delta> <full> [<circ> <frag>] <tpl>   (9 fields: circ = 0, frag = 1)
+		circS, fragS, tplS := "0", "1", f[8]
+		if len(f) == 11 {
+			circS, fragS, tplS = f[8], f[9], f[10]
+		}
+		if (fragS != "0" && fragS != "1") || (circS != "0" && circS != "1") {
 			return "bad-op", nil
+		}
+		frag := fragS == "1"
+		oc, ok := c11ParseOpt([]string{f[1], f[2], f[3], f[3], "0", f[5], f[6], f[7], circS})
+		mn, errMn := strconv.Atoi(f[4])
+		t, ok2 := unhx(tplS)
+		if !ok || !ok2 || errMn != nil || oc.max < 1 {
+			return "bad-op", nil
+		}
+		if len(oc.fwd) >= c11MaxPatLen || len(oc.rev) >= c11MaxPatLen {
+			return "bad-op", nil
+		}
+		// what the command line means: -l <= 0 is no lower bound, --delta < 0 is no flank
+		o := oc
+		o.min = max(mn, 0)
+		if o.ext < 0 {
+			o.ext = -1
 		}
 		F, okF := c11Primer(o.fwd)
 		R, okR := c11Primer(o.rev)
-		if !okF || !okR || len(F) >= c11MaxPatLen || len(R) >= c11MaxPatLen {
-			return "bad-op", nil
+		L := len(t)
+		// the pieces IFragments is asked to cut (independent of the code: from the documented parameters)
+		type piece struct{ a, b int }
+		pieces := []piece{{0, L}}
+		if frag {
+			minsize, length := o.max*1000, o.max*100
+			overlap := o.max + len(o.fwd) + len(o.rev)
+			if o.ext >= 0 {
+				overlap += 2 * o.ext
+			}
+			step := length - overlap
+			if L > minsize {
+				if step < 1 {
+					return "bad-op", nil // IFragments does not advance
+				}
+				pieces = nil
+				for i := 0; i < L; i += step {
+					e := min(i+length, L)
+					if L-e < step {
+						pieces = append(pieces, piece{i, L})
+						break
+					}
+					pieces = append(pieces, piece{i, e})
+				}
+			}
 		}
+		if o.circ {
+			for _, pc := range pieces {
+				if pc.b-pc.a < c11MaxPatLen && max(len(o.fwd), len(o.rev)) > pc.b-pc.a {
+					caseTrivial = true
+					return "unmodelled", nil
+				}
+			}
+		}
+		mode := "lin"
+		if o.circ {
+			mode = "circ"
+		}
+		if frag && len(pieces) > 1 {
+			mode += ".frag"
+		} else {
+			mode += ".whole"
+		}
+		stat("cli:" + mode)
 		type famp struct {
-			a    c11Amp
-			frag string
+			a     c11Amp
+			frag  string
+			start int
 		}
 		var got []famp
+		c11AnnotBad = nil
 		res := guardT(60*time.Second, func() string {
 			defer dbg()
-			obipcr.VerifSetOptions(o.fwd, o.rev, o.ef, o.min, o.max, o.ext, o.full, false, true)
-			src := obiiter.IBatchOver("x", obiseq.BioSequenceSlice{obiseq.NewBioSequence("x", t, "")}, 10)
+			obipcr.VerifSetOptions(o.fwd, o.rev, o.ef, mn, o.max, oc.ext, o.full, o.circ, frag)
+			tpl := obiseq.NewBioSequence("x", t, "")
+			tpl.SetAttribute("c11tag", 0)
+			src := obiiter.IBatchOver("x", obiseq.BioSequenceSlice{tpl}, 10)
 			it, err := obipcr.CLIPCR(src)
 			if err != nil {
 				return "error"
@@ -746,12 +988,13 @@ func (c11) Exec(c string) (string, []Fail) {
 					p := strings.LastIndex(id, "_sub[")
 					coord := id[p+5 : len(id)-1]
 					from1, _ := strconv.Atoi(coord[:strings.Index(coord, "..")])
-					frag, start := "whole", 0
+					frg, start := "whole", 0
 					if q := strings.Index(id[:p], "_sub["); q >= 0 {
-						frag = id[q+5 : p-1]
-						start, _ = strconv.Atoi(frag[:strings.Index(frag, "..")])
+						frg = id[q+5 : p-1]
+						start, _ = strconv.Atoi(frg[:strings.Index(frg, "..")])
 						start--
 					}
+					c11CheckAnnot(s, o, 0)
 					a := c11Amp{from: start + from1 - 1, amp: string(s.Sequence()), dir: '?'}
 					if d, _ := s.GetAttribute("direction"); d == "forward" {
 						a.dir = 'f'
@@ -766,7 +1009,7 @@ func (c11) Exec(c string) (string, []Fail) {
 					a.fe, _ = v.(int)
 					v, _ = s.GetAttribute("reverse_error")
 					a.re, _ = v.(int)
-					got = append(got, famp{a, frag})
+					got = append(got, famp{a, frg, start})
 				}
 			}
 			xs := make([]string, len(got))
@@ -779,12 +1022,18 @@ func (c11) Exec(c string) (string, []Fail) {
 			}
 			return strings.Join(xs, ",")
 		})
+		if !okF || !okR {
+			return res, nil // not a primer of the grammar: no oracle (the model says `fatal` when it does not compile)
+		}
 		if res == "fatal" || res == "panic" || res == "hang" || res == "error" {
-			fail("cli."+res, "obipcr --fragmented ends in %s", res)
+			fail("cli."+res+"."+mode, "obipcr ends in %s", res)
 			return res, fails
 		}
+		if len(c11AnnotBad) > 0 {
+			fail("cli.annot", "annotations of the amplicons: %s", strings.Join(c11AnnotBad, " ; "))
+		}
 		low := c11Lower(t)
-		exp, _ := c11Expected(o, F, R, low)
+		exp := c11Expected(o, F, R, low)
 		var gl []c11Amp
 		for _, g := range got {
 			gl = append(gl, g.a)
@@ -794,16 +1043,63 @@ func (c11) Exec(c string) (string, []Fail) {
 		if len(c11Uniq(gk)) < len(gk) {
 			stat("cli-duplicates")
 		}
-		m, s := c11Diff(c11Uniq(c11Keys(exp, true, false)), c11Uniq(gk))
-		if len(m) > 0 {
-			fail("cli.missing", "amplicons of the whole template found on no fragment: %s", c11Cut(m))
-		}
-		if len(s) > 0 {
-			sig := "cli.spurious"
-			if o.ext > -1 && !o.full {
-				sig = "cli.clipped-flank" // a fragment end acts as an end of the template
+		switch {
+		case len(pieces) == 1:
+			// not fragmented: the amplicons of the template, each once (a circular window longer than the circle
+			// is left to the pcr cases)
+			for k := range exp {
+				if exp[k].over {
+					exp[k].amp = exp[k].alt
+				}
 			}
-			fail(sig, "reported on a fragment but not an amplicon of the whole template: %s", c11Cut(s))
+			m, s := c11Diff(c11Keys(exp, true, false), gk)
+			if len(m) > 0 {
+				fail("cli.missing."+mode, "amplicons of the template not reported: %s", c11Cut(m))
+			}
+			if len(s) > 0 {
+				fail("cli.spurious."+mode, "reported but not an amplicon of the template: %s", c11Cut(s))
+			}
+		case o.circ:
+			// --fragmented --circular: every linear piece is searched as a circle (proposed finding)
+			m, s := c11Diff(c11Uniq(c11Keys(exp, true, false)), c11Uniq(gk))
+			if len(m)+len(s) > 0 {
+				fail("cli.circular-fragments", "obipcr --circular --fragmented searches each piece as a circle: amplicons of the circular template found on no piece: %s ; reported on a piece but not an amplicon of the template: %s", c11Cut(m), c11Cut(s))
+			}
+		default:
+			m, s := c11Diff(c11Uniq(c11Keys(exp, true, false)), c11Uniq(gk))
+			if len(m) > 0 {
+				fail("cli.missing", "amplicons of the whole template found on no fragment: %s", c11Cut(m))
+			}
+			if len(s) > 0 {
+				sig := "cli.spurious"
+				if o.ext > -1 && !o.full {
+					sig = "cli.clipped-flank" // a fragment end acts as an end of the template
+				}
+				fail(sig, "reported on a fragment but not an amplicon of the whole template: %s", c11Cut(s))
+			}
+			// duplicates are exactly the amplicons lying inside an overlap (pcr_fragment_duplicates): each amplicon is
+			// reported once per piece that contains its two sites and its window
+			if o.ext < 0 || o.full {
+				cnt := map[string]int{}
+				for _, k := range gk {
+					cnt[k]++
+				}
+				for _, e := range exp {
+					want := 0
+					for _, pc := range pieces {
+						if pc.a <= e.lo && e.hi <= pc.b {
+							want++
+						}
+					}
+					if want > 1 {
+						stat("cli-in-overlap")
+					}
+					if cnt[e.key(true)] != want {
+						fail("cli.count", "amplicon %s lies inside %d pieces but is reported %d times", e.key(true), want, cnt[e.key(true)])
+						break
+					}
+				}
+			}
 		}
 		return res, fails
 	}
@@ -877,31 +1173,65 @@ func c11RandPrimer(rng *rand.Rand, n int, amb int) string {
 	return string(out)
 }
 
-// an instance of the set list with k substitutions (positions where a substitution is possible)
-func c11Instance(rng *rand.Rand, sets []uint8, k int) []byte {
+// a primer of the extended grammar: n positions, classes [..], negations !, obligatory positions #
+func c11RandPrimerExt(rng *rand.Rand, n int) string {
+	var sb strings.Builder
+	for i := 0; i < n; i++ {
+		neg := rng.Intn(6) == 0
+		if neg {
+			sb.WriteByte('!')
+		}
+		switch rng.Intn(5) {
+		case 0: // class
+			k := 1 + rng.Intn(3)
+			sb.WriteByte('[')
+			for q := 0; q < k; q++ {
+				sb.WriteByte("ACGTRYW"[rng.Intn(7)])
+			}
+			sb.WriteByte(']')
+		case 1:
+			sb.WriteByte("RYMKSWBDHV"[rng.Intn(10)])
+		default:
+			sb.WriteByte("ACGT"[rng.Intn(4)])
+		}
+		if rng.Intn(5) == 0 {
+			sb.WriteByte('#')
+		}
+	}
+	return sb.String()
+}
+
+// an instance of the positions with k substitutions (at positions where a substitution is possible and allowed)
+func c11Instance(rng *rand.Rand, sets []c11Tok, k int) []byte {
 	out := make([]byte, len(sets))
-	for i, s := range sets {
+	pick := func(t c11Tok, want bool) (byte, bool) {
 		var in []byte
 		for b := 0; b < 4; b++ {
-			if s&(1<<b) != 0 {
+			if t.accepts("acgt"[b]) == want {
 				in = append(in, "acgt"[b])
 			}
 		}
-		out[i] = in[rng.Intn(len(in))]
+		if want && t.neg && rng.Intn(8) == 0 {
+			in = append(in, 'n') // "not an A" accepts an ambiguity code too
+		}
+		if len(in) == 0 {
+			return 'n', t.accepts('n') == want
+		}
+		return in[rng.Intn(len(in))], true
+	}
+	for i, s := range sets {
+		out[i], _ = pick(s, true)
 	}
 	perm := rng.Perm(len(sets))
 	for _, p := range perm {
 		if k == 0 {
 			break
 		}
-		var notin []byte
-		for b := 0; b < 4; b++ {
-			if sets[p]&(1<<b) == 0 {
-				notin = append(notin, "acgt"[b])
-			}
+		if sets[p].oblig && rng.Intn(4) != 0 { // mostly respect the obligatory positions
+			continue
 		}
-		if len(notin) > 0 {
-			out[p] = notin[rng.Intn(len(notin))]
+		if c, ok := pick(sets[p], false); ok {
+			out[p] = c
 			k--
 		}
 	}
@@ -923,6 +1253,7 @@ func c11Plant(t []byte, i int, w []byte, circ bool) {
 }
 
 func (c11) Gen(rng *rand.Rand, tier string, emit func(string)) {
+	c11Tier = tier
 	S := func(s string) []byte { return []byte(s) }
 	rep := func(s string, n int) string { return strings.Repeat(s, n) }
 	// ---- corpus ---------------------------------------------------------------------------------
@@ -959,6 +1290,36 @@ func (c11) Gen(rng *rand.Rand, tier string, emit func(string)) {
 		{c11Opt{fwd: "A#CGTA", rev: "GG[AT]TC", ext: -1, ef: 1, er: 1}, []string{lin}},                             // extended grammar (no oracle)
 		{c11Opt{fwd: "AC", rev: "GT", ext: -1}, []string{"acacacacgtgtgt"}},                                       // many hits
 		{c11Opt{fwd: "AAA", rev: "TTT", ext: 5}, []string{"aaaaaccaaaaa", "tttttggttttt"}},                          // palindromic pair: several forward hits clipped to 0
+		// ---- deepening round ----
+		// extended grammar, with oracle: obligatory position hit by a mismatch / not, class, negation (also of an ambiguity code in the template)
+		{c11Opt{fwd: "A#CGTA", rev: "GG[AT]TC", ext: -1, ef: 1, er: 1}, []string{"ttccgtacccccgatccaa", "ttacgaacccccgaaccaa", "ttacgtacccccgagccaa"}},
+		{c11Opt{fwd: "AC!GTA", rev: "GGA!T#C", ext: -1, ef: 1, er: 1}, []string{"ttacgtacccccgatccaa", "ttacntacccccgcaccaa", "ttggtgcgggggtantgaa"}},
+		{c11Opt{fwd: "![AC]CG[TU]A#", rev: "!N#GATC", ext: 2, ef: 2, er: 2}, []string{"ttgcgtacccccgatcnaa", "ttacgtacccccgatccaa"}},
+		// the reverse primer is the reverse complement of the forward primer: every site is a site of both blocks
+		{c11Opt{fwd: "ACGTA", rev: "TACGT", ext: -1}, []string{"ttacgtacccccacgtaaa", "tttacgtgggggtacgtaa"}},
+		// palindromic primers: each site is a direct and a complemented site of both orientations
+		{c11Opt{fwd: "ACGT", rev: "ACGT", ext: -1}, []string{"ttacgtcccccacgtaaacgtt"}},
+		{c11Opt{fwd: "ACGT", rev: "ACGT", ext: 1, ef: 1, er: 1}, []string{"ttacgtcccacgtaa"}},
+		{c11Opt{fwd: "GAATTC", rev: "GGATCC", ext: -1, min: 3, max: 3}, []string{"gaattcaaaggatccaaagaattcaaggatcc"}},
+		// forward and complemented-reverse sites overlapping each other / sharing symbols with the next pair
+		{c11Opt{fwd: "ACGTA", rev: "GGTAC", ext: -1}, []string{"acgtaccacgtaccgtacc"}},
+		{c11Opt{fwd: "ACA", rev: "TGT", ext: -1, max: 6}, []string{"acacacacacacaca"}},
+		// many amplicons from one template in a batch of one (the result slice of _Pcr starts with capacity 10)
+		{c11Opt{fwd: "AC", rev: "GT", ext: -1}, []string{rep("ac", 40) + rep("gt", 40)}},
+		{c11Opt{fwd: "AC", rev: "GT", ext: 3, ef: 1, er: 1, min: 2, max: 30}, []string{rep("ac", 30) + rep("gt", 30), rep("acgt", 20)}},
+		// amplicon length exactly min / max, one more, one less
+		{c11Opt{fwd: "ACGTA", rev: "GGATC", ext: -1, min: 5, max: 5}, []string{"acgtaccccgatcc", "acgtacccccgatcc", "acgtaccccccgatcc"}},
+		{c11Opt{fwd: "ACGTA", rev: "GGATC", ext: -1, min: 4, max: 6}, []string{"acgtacccgatcc", "acgtaccccgatcc", "acgtaccccccgatcc", "acgtacccccccgatcc"}},
+		// negative bounds (what the command line cannot give but the API accepts)
+		{c11Opt{fwd: "ACGTA", rev: "GGATC", ext: -1, min: -1, max: -1}, []string{lin}},
+		{c11Opt{fwd: "ACGTA", rev: "GGATC", ext: -2, min: 0, max: 0}, []string{lin}},
+		// templates shorter than a primer / as long as one / only one site fits
+		{c11Opt{fwd: "ACGTACGT", rev: "GG", ext: -1, ef: 2}, []string{"acg", "acgtacgt", "acgtacgtcc", "cc", "c"}},
+		// IUPAC / non-nucleotide symbols in the template, both strands, asymmetric budgets
+		{c11Opt{fwd: "ACGTA", rev: "GGATC", ext: 1, ef: 2, er: 0}, []string{"ttacrtacccccgatccaa", "ttggatcgggggtaygtaa", "ttacgtaccc-ccgatccaa", "ttacgtaccxccgatccaa"}},
+		{c11Opt{fwd: "ACGTA", rev: "GGATC", ext: 1, ef: 0, er: 2}, []string{"ttacgtacccccgayycaa", "ttggrtcgggggtacgtaa"}},
+		{c11Opt{fwd: "ACGUA", rev: "GGAUC", ext: -1}, []string{"ttacguacccccgatccaa", "ttacgtacccccgauccaa"}}, // u in the primers and in the template
+		// a circular window (sites + flanks) longer than the circle is returned modulo the length (open finding)
 	}
 	for _, c := range corpus {
 		var tp [][]byte
@@ -995,6 +1356,20 @@ func (c11) Gen(rng *rand.Rand, tier string, emit func(string)) {
 		{circ(c11Opt{fwd: "ACGTACGTAC", rev: "GTACGTTTTT", ext: -1}), []string{"tac" + rep("g", 54) + "aaaaa" + "acgta" + "cg"}},
 		{circ(base), []string{"ccccc" + "gatcc" + "acgta"}},                                              // circular template shorter than 64
 		{circ(base), []string{"ta" + "ccccc" + "gatcc" + rep("c", 30) + "acg"}},
+		// ---- deepening round ----
+		// window (sites + flanks) longer than the circle: 5 + 5 + 5 + 2 x 30 = 75 > 70 ; exactly the circle ; one more
+		{circ(c11Opt{fwd: "ACGTA", rev: "GGATC", ext: 30}), []string{"tt" + "acgta" + "ccccc" + "gatcc" + rep("c", 53)}},
+		{circ(c11Opt{fwd: "ACGTA", rev: "GGATC", ext: 30, full: true}), []string{"tt" + "acgta" + "ccccc" + "gatcc" + rep("c", 58)}},
+		{circ(c11Opt{fwd: "ACGTA", rev: "GGATC", ext: 30}), []string{"tt" + "acgta" + "ccccc" + "gatcc" + rep("c", 57), "tt" + "ggatc" + "aaaaa" + "tacgt" + rep("a", 57)}},
+		{circ(c11Opt{fwd: "ACG", rev: "GGA", ext: 2}), []string{"gttccaatac"}}, // the example of Props/C11.lean (primers fit: compared)
+		{circ(c11Opt{fwd: "ACG", rev: "GGA", ext: 1}), []string{"gttccaatac"}},
+		// extended grammar on the circle, site across the origin
+		{circ(c11Opt{fwd: "A#CG!AA", rev: "GG[AT]TC", ext: -1, ef: 1, er: 1}), []string{"gta" + "ccccc" + "gatcc" + pad + "ac", "gaa" + "ccccc" + "gaacc" + pad + "ac"}},
+		// palindromic primers on the circle
+		{circ(c11Opt{fwd: "ACGT", rev: "ACGT", ext: -1}), []string{"gt" + rep("c", 30) + "acgt" + rep("a", 30) + "ac"}},
+		// circle exactly covered by the product: sites touching "behind"
+		{circ(c11Opt{fwd: "ACGTA", rev: "GGATC", ext: -1}), []string{"acgta" + rep("c", 54) + "gatcc"}},
+		{circ(c11Opt{fwd: "ACGTA", rev: "GGATC", ext: 0}), []string{"acgta" + rep("c", 54) + "gatcc", "cgta" + rep("c", 54) + "gatcc" + "a"}},
 	}
 	for _, c := range cc {
 		var tp [][]byte
@@ -1013,6 +1388,23 @@ func (c11) Gen(rng *rand.Rand, tier string, emit func(string)) {
 	emit(c11CliLine(rng, "ACGTAAC", "GGATCTT", 0, 0, 3, -1, false, true))
 	emit(c11CliLine(rng, "ACGTAAC", "GGATC", 0, 0, 3, 4, true, true))
 	emit(c11CliLine(rng, "ACGTAAC", "GGATC", 0, 0, 3, 4, false, true))
+	// extended grammar: the overlap is computed from the lengths of the primer strings
+	emit(c11CliLine(rng, "A#CGT[AT]AC", "GG!CTC", 1, 0, 3, -1, false, true))
+	// the options of the command as CLIPCR passes them on (not fragmented): -l <= 0, --delta < 0, --only-complete-flanking, --circular
+	for _, c := range []struct {
+		mn, mx, delta int
+		full, circ    bool
+	}{{0, 10, -1, false, false}, {-3, 10, -1, false, false}, {5, 5, -1, false, false}, {6, 10, -1, false, false}, {0, 4, -1, false, false},
+		{0, 10, 0, false, false}, {0, 10, 3, false, false}, {0, 10, 3, true, false}, {0, 10, 2, true, false}, {0, 10, -5, true, false},
+		{0, 10, -1, false, true}, {0, 10, 3, false, true}, {0, 10, 3, true, true}} {
+		t := "tt" + "acgta" + "ccccc" + "gatcc" + "aa"
+		if c.circ {
+			t = "gta" + "ccccc" + "gatcc" + rep("c", 60) + "ac"
+		}
+		emit(c11CliShort("ACGTA", "GGATC", 0, c.mn, c.mx, c.delta, c.full, c.circ, S(t)))
+	}
+	// --fragmented --circular: every linear piece is searched as a circle (proposed finding)
+	emit(c11CliLineX(rng, "ACGTAAC", "GGATC", 0, 0, 4, -1, false, true, true))
 
 	// ---- random ----------------------------------------------------------------------------------
 	n := 2500
@@ -1033,6 +1425,12 @@ func (c11) Gen(rng *rand.Rand, tier string, emit func(string)) {
 		amb := []int{0, 0, 15, 40}[rng.Intn(4)]
 		o.fwd = c11RandPrimer(rng, fl, amb)
 		o.rev = c11RandPrimer(rng, rl, amb)
+		if rng.Intn(5) == 0 { // extended grammar: classes, negations, obligatory positions
+			o.fwd = c11RandPrimerExt(rng, min(fl, 12))
+			if rng.Intn(2) == 0 {
+				o.rev = c11RandPrimerExt(rng, min(rl, 12))
+			}
+		}
 		if rng.Intn(12) == 0 {
 			o.fwd = strings.ToLower(o.fwd)
 		}
@@ -1040,6 +1438,17 @@ func (c11) Gen(rng *rand.Rand, tier string, emit func(string)) {
 		o.er = o.ef
 		if rng.Intn(4) == 0 {
 			o.er = rng.Intn(3)
+		}
+		if rng.Intn(25) == 0 { // the reverse primer is the reverse complement of the forward primer / a palindromic pair
+			if b, ok := c11Rc([]byte(strings.ToLower(o.fwd))); ok {
+				o.rev = strings.ToUpper(string(b))
+				if rng.Intn(2) == 0 && len(o.fwd) >= 2 {
+					h := o.fwd[:len(o.fwd)/2]
+					hb, _ := c11Rc([]byte(strings.ToLower(h)))
+					o.fwd = strings.ToUpper(h + string(hb))
+					o.rev = o.fwd
+				}
+			}
 		}
 		F, _ := c11Primer(o.fwd)
 		R, _ := c11Primer(o.rev)
@@ -1171,6 +1580,78 @@ func (c11) Gen(rng *rand.Rand, tier string, emit func(string)) {
 		emit(c11CliLine(rng, c11RandPrimer(rng, fl, 0), c11RandPrimer(rng, rl, 0), rng.Intn(2), 0, 2+rng.Intn(3),
 			[]int{-1, -1, 0, 2}[rng.Intn(4)], rng.Intn(2) == 0, rng.Intn(2) == 0))
 	}
+	// the command without --fragmented on short templates: option mapping of CLIPCR, linear and circular
+	ns := 60
+	if tier == "thorough" {
+		ns = 200
+	}
+	for k := 0; k < ns; k++ {
+		fl, rl := 3+rng.Intn(5), 3+rng.Intn(5)
+		fw, rv := c11RandPrimer(rng, fl, 10), c11RandPrimer(rng, rl, 10)
+		if rng.Intn(6) == 0 {
+			fw = c11RandPrimerExt(rng, fl)
+		}
+		F, _ := c11Primer(fw)
+		R, _ := c11Primer(rv)
+		circ := rng.Intn(3) == 0
+		L := 30 + rng.Intn(90)
+		if circ {
+			L = 64 + rng.Intn(60)
+		}
+		t := c11RandSeq(rng, L, "acgt")
+		e := rng.Intn(2)
+		gap := 1 + rng.Intn(12)
+		for q := 0; q < 2; q++ {
+			D, C := F, c11RcSets(R)
+			if rng.Intn(2) == 0 {
+				D, C = R, c11RcSets(F)
+			}
+			i := rng.Intn(L)
+			if !circ {
+				i = rng.Intn(max(L-len(D)-gap-len(C), 1))
+			}
+			c11Plant(t, i, c11Instance(rng, D, rng.Intn(e+1)), circ)
+			c11Plant(t, i+len(D)+gap, c11Instance(rng, C, rng.Intn(e+1)), circ)
+		}
+		mn := []int{-2, 0, 0, gap, gap + 1, 1}[rng.Intn(6)]
+		mx := []int{gap, gap, gap + 5, max(gap-1, 1), 40}[rng.Intn(5)]
+		delta := []int{-1, -1, -3, 0, 1, 4, 20}[rng.Intn(7)]
+		emit(c11CliShort(fw, rv, e, mn, mx, delta, rng.Intn(2) == 0, circ, t))
+	}
+	if tier == "thorough" {
+		emit(c11CliLineX(rng, c11RandPrimer(rng, 7, 0), c11RandPrimer(rng, 6, 0), 0, 0, 3, -1, false, true, true))
+	}
+}
+
+// obipcr without --fragmented on one (short) template
+func c11CliShort(fw, rv string, e, mn, mx, delta int, full, circ bool, t []byte) string {
+	b := func(x bool) int {
+		if x {
+			return 1
+		}
+		return 0
+	}
+	return fmt.Sprintf("cli %s %s %d %d %d %d %d %d 0 %s", hx([]byte(fw)), hx([]byte(rv)), e, mn, mx, delta, b(full), b(circ), hx(t))
+}
+
+// c11CliLine with --circular: plus a product across the origin of the template (an amplicon of the circle that no piece
+// contains) and a forward site at the end of the first piece facing a reverse site at its start (an amplicon of the piece
+// read as a circle, not of the template)
+func c11CliLineX(rng *rand.Rand, fw, rv string, e, mn, mx, delta int, full bool, atEnds bool, circ bool) string {
+	f := strings.Fields(c11CliLine(rng, fw, rv, e, mn, mx, delta, full, atEnds))
+	c := "0"
+	if circ {
+		c = "1"
+	}
+	t, _ := unhx(f[8])
+	F, _ := c11Primer(fw)
+	R, _ := c11Primer(rv)
+	rcR := c11RcSets(R)
+	L := len(t)
+	c11Plant(t, L-len(F)-1, c11Instance(rng, F, 0), false)
+	c11Plant(t, 1, c11Instance(rng, rcR, 0), false)
+	c11Plant(t, mx*100-len(F)-1, c11Instance(rng, F, 0), false)
+	return strings.Join(append(append(f[:8:8], c, "1"), hx(t)), " ")
 }
 
 // a template longer than 1000 x max length; products planted around the ends of the fragments obipcr cuts
